@@ -40,11 +40,11 @@ Definition up_ok (d : db) (now : Z) (u : update_promise_cmd) : Prop :=
   exists q, In q (promises d) /\ p_id q = up_id u /\
     ((up_completed u = p_timeout q /\ p_timeout q <= now /\ up_state u = timedout_state (p_tags q) /\
       up_vh u = [] /\ up_vd u = EmptyString /\ up_ikey u = None) \/
-     (up_completed u < p_timeout q /\ up_completed u <= now /\ user_state (up_state u) = true)).
+     (up_completed u = now /\ now < p_timeout q /\ user_state (up_state u) = true)).
 
-Lemma up_ok_mono : forall d d' now now' u, prom_le d d' -> now <= now' -> up_ok d now u -> up_ok d' now' u.
+Lemma up_ok_mono : forall d d' now u, prom_le d d' -> up_ok d now u -> up_ok d' now u.
 Proof.
-  intros d d' now now' u [A _] Hle [q [Hq [Hid H]]]. destruct (A q Hq) as [q' [Hq' [Cq _]]].
+  intros d d' now u [A _] [q [Hq [Hid H]]]. destruct (A q Hq) as [q' [Hq' [Cq _]]].
   destruct Cq as (a&_&b&c&e&f&g&h). exists q'. split; [exact Hq'|]. split; [congruence|].
   rewrite <- e, <- g. destruct H as [H|H]; [left|right]; intuition lia.
 Qed.
@@ -183,7 +183,7 @@ Lemma st_ok_mono : forall d d' st, prom_le d d' -> st_ok d st -> st_ok d' st.
 Proof. intros d d' st L H. destruct st; cbn in *; try exact H. eapply k_ok_mono; eassumption. Qed.
 
 Lemma cmd_at_mono_db : forall d d' now c, prom_le d d' -> cmd_at d now c -> cmd_at d' now c.
-Proof. intros d d' now c L H. destruct c; cbn in *; try exact H. apply (up_ok_mono d d' now now _ L (Z.le_refl now) H). Qed.
+Proof. intros d d' now c L H. destruct c; cbn in *; try exact H. apply (up_ok_mono d d' now _ L H). Qed.
 Lemma sub_at_mono_db : forall d d' now s, prom_le d d' -> sub_at d now s -> sub_at d' now s.
 Proof.
   intros d d' now s L H. destruct s; cbn in *; try exact I.
@@ -510,7 +510,7 @@ Section Resume.
     destruct (now <? p_timeout p) eqn:Et.
     - apply out_wait_ok; [|cbn; repeat split; auto; apply user_state_final; exact Hk|cbn; eauto]. apply completion_txn_at.
       destruct Hp as [q [Hq [C _]]]. destruct C as (a&b&c0&e&f&g&h). exists q. split; [exact Hq|]. split; [cbn; congruence|].
-      right. cbn. apply Z.ltb_lt in Et. rewrite <- e. split; [exact Et|split; [lia|exact Hk]].
+      right. cbn. apply Z.ltb_lt in Et. rewrite <- e. split; [reflexivity|split; [exact Et|exact Hk]].
     - apply out_wait_ok; [|cbn; repeat split; auto; apply timedout_state_final|cbn; eauto]. apply completion_txn_at.
       destruct Hp as [q [Hq [C _]]]. destruct C as (a&b&c0&e&f&g&h). exists q. split; [exact Hq|]. split; [cbn; congruence|].
       left. cbn. apply Z.ltb_ge in Et. rewrite <- e, <- g. tauto.
